@@ -43,6 +43,7 @@ func genScanCases(prop, tier string, rng *rand.Rand) []genCase {
 		"C01": c.dirC01, "C02": c.dirC02, "C03": c.dirC03C06, "C04": c.dirC04, "C06": c.dirC03C06, "C07": c.dirC07, "C08": c.dirC08,
 		"C09": func() []genCase { return c.dirBranches("cordon") }, "C10": func() []genCase { return c.dirBranches("annot") },
 		"C11": func() []genCase { return c.dirBranches("dry") }, "C12": c.dirC12, "C15": c.dirC15, "C19": c.dirC19, "C20": c.dirC20, "C05S": c.dirC05S,
+		"C18S": c.dirC18S,
 		"C13S": func() []genCase { return append(c.dirBranches("cordon"), c.sampleN(c.dirC03C06(), 150)...) },
 	}
 	nRandom, nHist := 150, 14
